@@ -2,6 +2,7 @@ package valid
 
 import (
 	"encoding/json"
+	"errors"
 	"fmt"
 	"net"
 	"os"
@@ -407,7 +408,7 @@ func Year(errBuf *strings.Builder, validName, objName, fieldName string, tv refl
 		errBuf.WriteString(err.Error())
 		return
 	}
-	_, err := time.Parse(GetTimeFmt(YearFmt), tv.String())
+	err := parseTimeStrict(GetTimeFmt(YearFmt), tv.String())
 	if err == nil {
 		return
 	}
@@ -432,7 +433,7 @@ func Year2Month(errBuf *strings.Builder, validName, objName, fieldName string, t
 	if val != "" {
 		defaultDateSplit = strings.Trim(val, "'")
 	}
-	_, err := time.Parse(GetTimeFmt(YearFmt|MonthFmt, defaultDateSplit), tv.String())
+	err := parseTimeStrict(GetTimeFmt(YearFmt|MonthFmt, defaultDateSplit), tv.String())
 	if err == nil {
 		return
 	}
@@ -456,7 +457,7 @@ func Date(errBuf *strings.Builder, validName, objName, fieldName string, tv refl
 	if val != "" {
 		defaultDateSplit = strings.Trim(val, "'")
 	}
-	_, err := time.Parse(GetTimeFmt(DateFmt, defaultDateSplit), tv.String())
+	err := parseTimeStrict(GetTimeFmt(DateFmt, defaultDateSplit), tv.String())
 	if err == nil {
 		return
 	}
@@ -482,7 +483,7 @@ func Datetime(errBuf *strings.Builder, validName, objName, fieldName string, tv 
 			defaultSplit[i] = split
 		}
 	}
-	_, err := time.Parse(GetTimeFmt(DateTimeFmt, defaultSplit...), tv.String())
+	err := parseTimeStrict(GetTimeFmt(DateTimeFmt, defaultSplit...), tv.String())
 	if err == nil {
 		return
 	}
@@ -816,6 +817,19 @@ func Dir(errBuf *strings.Builder, validName, objName, fieldName string, tv refle
 		return
 	}
 	errBuf.WriteString(GetJoinValidErrStr(objName, fieldName, valStr, ExplainEn, "it is not dir"))
+}
+
+// parseTimeStrict 按 layout 严格解析时间
+// time.Parse 对部分内容比较宽松(如: 小时可以为 1 位, 秒后面可以带小数), 这里通过再格式化后进行比较来保证格式一致
+func parseTimeStrict(layout, value string) error {
+	t, err := time.Parse(layout, value)
+	if err != nil {
+		return err
+	}
+	if t.Format(layout) != value {
+		return errors.New("time format is not ok, it should is: " + layout)
+	}
+	return nil
 }
 
 func dir(path string) (bool, error) {
